@@ -17,7 +17,8 @@
 (* increasing, with micro-second, hour and day gaps around the middle; the *)
 (* cutoff sits exactly ON an axis point `cut`, so a row at point x is      *)
 (* older than the cutoff iff x < cut and "max = cutoff" is a first-class   *)
-(* case.  Hour files live under .../YYYY/MM/DD/HH/, compacted day files    *)
+(* case.  A file only holds rows of its own hour (hour files) or day (day  *)
+(* files), as arc's partitioning guarantees.  Hour files live under .../YYYY/MM/DD/HH/, compacted day files    *)
 (* under .../YYYY/MM/DD/ ; measurement and database names share prefixes   *)
 (* (cpu, cpu_total; prod, prod2).  Between two runs a compaction-like      *)
 (* relocation may merge the hour files of one measurement into a day file  *)
@@ -45,7 +46,13 @@ AxisAll == << [d |-> 0, s |-> 0,     us |-> 0],
               [d |-> 2, s |-> 0,     us |-> 1],          \* middle + 1 us
               [d |-> 2, s |-> 3600,  us |-> 0],          \* middle + 1 h
               [d |-> 4, s |-> 0,     us |-> 0] >>
+\* partition of each axis point: its calendar day and its clock hour (arc stores a row under the hour of its
+\* timestamp; daily compaction keeps it under its day). A file only holds rows of its own partition.
+DayAll  == <<1, 2, 2, 3, 3, 3, 4>>
+HourAll == <<1, 2, 2, 3, 3, 4, 5>>
 AxisOff == (7 - NP) \div 2
+DayOf(x)  == DayAll[AxisOff + x]
+HourOf(x) == HourAll[AxisOff + x]
 Axis    == [i \in 1..NP |-> AxisAll[AxisOff + i]]
 Points  == 1..NP
 
@@ -84,7 +91,8 @@ AddFile ==
     /\ \E ci \in 1..NC, li \in 1..2, a \in Points :
          \E b \in a..NP :
            LET f == [id |-> nextId, db |-> ComboSeq[ci][1], meas |-> ComboSeq[ci][2], loc |-> Locs[li], pts |-> {a, b}, cnt |-> Cardinality({a, b})]
-           IN /\ Canon => \A g \in files : KeyOf(g) <= Key(ci, li, a, b)
+           IN /\ IF li = 1 THEN HourOf(a) = HourOf(b) ELSE DayOf(a) = DayOf(b)      \* rows stay inside the partition
+              /\ Canon => \A g \in files : KeyOf(g) <= Key(ci, li, a, b)
               /\ files' = files \cup {f}
     /\ nextId' = nextId + 1
     /\ UNCHANGED <<pol, cut, n, pc, rep, last, hist, files0, cut0>>
@@ -106,12 +114,13 @@ Ids(S)      == {f.id : f \in S}
 NextPc(p) == CASE p = "c0" -> "dry1" [] p = "dry1" -> "run1" [] p = "run1" -> "c1" [] p = "c1" -> "adv"
                [] p = "adv" -> "dry2" [] p = "dry2" -> "run2" [] p = "run2" -> "end"
 
-\* compaction-like relocation: the hour files of one (db, measurement) become one day file
-HourFiles(db, m) == {f \in files : f.db = db /\ f.meas = m /\ f.loc = "hour"}
+\* compaction-like relocation: the hour files of one (db, measurement, day) become one day file
+FileDay(f) == DayOf(CHOOSE x \in f.pts : TRUE)
+HourFiles(db, m, d) == {f \in files : f.db = db /\ f.meas = m /\ f.loc = "hour" /\ FileDay(f) = d}
 Compact ==
     /\ pc \in {"c0", "c1"}
-    /\ \E ci \in 1..NC :
-         LET db == ComboSeq[ci][1]  m == ComboSeq[ci][2]  src == HourFiles(db, m)
+    /\ \E ci \in 1..NC, d \in 1..4 :
+         LET db == ComboSeq[ci][1]  m == ComboSeq[ci][2]  src == HourFiles(db, m, d)
              nf == [id |-> nextId, db |-> db, meas |-> m, loc |-> "day", pts |-> UNION {f.pts : f \in src},
                     cnt |-> RowCount(src)]
          IN /\ src # {}
